@@ -1,7 +1,11 @@
-(* C03 -- source maps.  Per-rule map theorems proved so far (thematic break); the generic
+(* C03 -- source maps.  Proved for EVERY state (any line tables): each leaf rule (code, fence, hr,
+   heading, html_block, paragraph, lheading), when it succeeds, moves the line cursor strictly
+   past its start line and not beyond the end line it was given (the paragraph: not beyond
+   lineMax), and every token it appends carries a map [b, e) with startLine <= b < e <= new line
+   (C03_*_maps).  Containers, tables and definitions, and the
    statement over the block loop is carried by the pipeline correspondence (maps are part of the
    compared token dicts) and the map checker on the implementation.  Only statements and [exact]. *)
-From MD Require Import Base.Py Base.Str Base.Opt Model.Token Model.Utils Model.StateBlock Model.Block Lemmas.BlockLemmas Lemmas.ScanLemmas.
+From MD Require Import Base.Py Base.Str Base.Opt Model.Token Model.Utils Model.StateBlock Model.Block Lemmas.BlockLemmas Lemmas.ScanLemmas Lemmas.MapLemmas.
 
 Theorem C03_hr_map :
   forall cfg st startLine endLine st',
@@ -33,3 +37,34 @@ Theorem C03_line_tables_well_formed :
     /\ rows_ok (len src) (rev (b_bMarks s)) (rev (b_eMarks s)) (rev (b_tShift s)) (rev (b_sCount s)).
 Proof. exact state_init_tables. Qed.
 Print Assumptions C03_line_tables_well_formed.
+
+(* leaf rules: progress, bound, maps inside [startLine, new line] *)
+Theorem C03_code_maps : forall cfg st sl el st',
+  r_code cfg st sl el false = Ok (true, st') -> sl < el -> leaf_maps st sl st' /\ b_line st' <= el.
+Proof. exact r_code_maps. Qed.
+Print Assumptions C03_code_maps.
+Theorem C03_fence_maps : forall cfg st sl el st',
+  r_fence cfg st sl el false = Ok (true, st') -> sl < el -> leaf_maps st sl st' /\ b_line st' <= el.
+Proof. exact r_fence_maps. Qed.
+Print Assumptions C03_fence_maps.
+Theorem C03_hr_maps : forall cfg st sl el st',
+  r_hr cfg st sl el false = Ok (true, st') -> sl < el -> leaf_maps st sl st' /\ b_line st' <= el.
+Proof. exact r_hr_maps. Qed.
+Print Assumptions C03_hr_maps.
+Theorem C03_heading_maps : forall cfg st sl el st',
+  r_heading cfg st sl el false = Ok (true, st') -> sl < el -> leaf_maps st sl st' /\ b_line st' <= el.
+Proof. exact r_heading_maps. Qed.
+Print Assumptions C03_heading_maps.
+Theorem C03_html_block_maps : forall cfg st sl el st',
+  r_html_block cfg st sl el false = Ok (true, st') -> sl < el -> leaf_maps st sl st' /\ b_line st' <= el.
+Proof. exact r_html_block_maps. Qed.
+Print Assumptions C03_html_block_maps.
+(* the two rules that consult terminator chains: for any callback that leaves the token list alone *)
+Theorem C03_paragraph_maps : forall term, term_same term -> forall st sl el st',
+  r_paragraph term st sl el false = Ok (true, st') -> sl < b_lineMax st -> leaf_maps st sl st' /\ b_line st' <= b_lineMax st.
+Proof. exact r_paragraph_maps. Qed.
+Print Assumptions C03_paragraph_maps.
+Theorem C03_lheading_maps : forall cfg term, term_same term -> forall st sl el st',
+  r_lheading cfg term st sl el false = Ok (true, st') -> sl < el -> leaf_maps st sl st' /\ b_line st' <= el.
+Proof. exact r_lheading_maps. Qed.
+Print Assumptions C03_lheading_maps.
